@@ -299,6 +299,27 @@ func meet(a, b *State) *State {
 			n.m[k] = f
 		}
 	}
+	// an implication known on one side holds at the join when the other side
+	// knows its conclusion, or knows that its condition is false
+	keepImps := func(x, y *State) {
+		for k, f := range x.m {
+			if f.Op != "imp" || f.Cond == nil || f.Then == nil {
+				continue
+			}
+			if _, both := y.m[k]; both {
+				continue
+			}
+			if _, concl := y.m[f.Then.key]; concl {
+				n.m[k] = f
+				continue
+			}
+			if _, vac := y.m[negKey(f.Cond)]; vac {
+				n.m[k] = f
+			}
+		}
+	}
+	keepImps(a, b)
+	keepImps(b, a)
 	// path correlation: C on one side, not-C on the other
 	addImps := func(x, y *State) {
 		for _, c := range x.m {
@@ -1558,12 +1579,12 @@ func (ff *FuncFacts) assume(st *State, e ast.Expr, pol bool) *State {
 			if pol {
 				return ff.assume(ff.assume(st, x.X, true), x.Y, true)
 			}
-			return st
+			return ff.assumeEither(st, x.X, x.Y, false)
 		case token.LOR:
 			if !pol {
 				return ff.assume(ff.assume(st, x.X, false), x.Y, false)
 			}
-			return st
+			return ff.assumeEither(st, x.X, x.Y, true)
 		case token.EQL, token.NEQ, token.LSS, token.GTR, token.LEQ, token.GEQ:
 			// b == true / b == false / b != true ...
 			if x.Op == token.EQL || x.Op == token.NEQ {
@@ -2141,8 +2162,20 @@ func (ff *FuncFacts) assign(x *ast.AssignStmt, st *State) *State {
 		st = st.filter(func(f *Fact) bool { return !f.ents().sites[pos] })
 		// v, ok := m[k] / x.(T): remember what the results are results of
 	}
+	// x = x (as left behind by inlining `return x, err` of named results) changes nothing
+	same := make([]bool, len(x.Lhs))
+	if len(x.Rhs) == len(x.Lhs) && x.Tok == token.ASSIGN {
+		for i := range x.Lhs {
+			if lts[i] != nil && i < len(rts) && rts[i] != nil && lts[i].K == 'v' && lts[i].String() == rts[i].String() {
+				same[i] = true
+			}
+		}
+	}
 	for i, l := range x.Lhs {
 		lt := lts[i]
+		if same[i] {
+			continue
+		}
 		if lt == nil {
 			if id, ok := l.(*ast.Ident); !ok || id.Name != "_" {
 				st = ff.killUnknownStore(st, l)
@@ -2153,7 +2186,7 @@ func (ff *FuncFacts) assign(x *ast.AssignStmt, st *State) *State {
 	}
 	for i := range x.Lhs {
 		lt := lts[i]
-		if lt == nil || i >= len(rts) || rts[i] == nil {
+		if lt == nil || i >= len(rts) || rts[i] == nil || same[i] {
 			continue
 		}
 		rt := rts[i]
@@ -4114,4 +4147,49 @@ func sortedKeys(m map[string]*Fact) []string {
 	}
 	sort.Strings(ks)
 	return ks
+}
+
+// assumeEither: one of the two operands has the value pol (a || b is true, or
+// a && b is false).  When each operand is a single simple fact this is kept as
+// the two implications "the one does not, so the other does".
+func (ff *FuncFacts) assumeEither(st *State, a, b ast.Expr, pol bool) *State {
+	if st == nil {
+		return st
+	}
+	single := func(e ast.Expr, v bool) *Fact {
+		l := ff.assume(emptyState, e, v)
+		if l == nil {
+			return nil
+		}
+		var out *Fact
+		for _, f := range l.m {
+			if f.Op == "imp" {
+				continue
+			}
+			if f.Op == "true" && f.A != nil && f.A.K == 'r' {
+				continue // site twin of a call condition
+			}
+			if out != nil {
+				return nil
+			}
+			out = f
+		}
+		if out == nil || !simpleCond(out) {
+			return nil
+		}
+		return out
+	}
+	fa, fb := single(a, pol), single(b, pol)
+	na, nb := single(a, !pol), single(b, !pol)
+	if fa == nil || fb == nil || na == nil || nb == nil {
+		return st
+	}
+	// already decided?
+	if st.Has(na.key) {
+		return st.add(fb)
+	}
+	if st.Has(nb.key) {
+		return st.add(fa)
+	}
+	return st.with(mkImp(na, fb), mkImp(nb, fa))
 }
